@@ -85,6 +85,10 @@ func init() {
 	)}
 }
 
+func init() {
+	knownRepros["F-LOOSETOKENS"] = knownRepro{"c09", c09Case{Kind: "cond", Expr: "a = 5", Items: c09Items, Names: c09Names, Values: c09Values}}
+}
+
 // TestGenKnown writes the repro files.
 func TestGenKnown(t *testing.T) {
 	if os.Getenv("VERIF_GEN_KNOWN") == "" {
